@@ -365,11 +365,23 @@ func c13Steps(c *c13Case) []job.Step {
 	if !c.admin {
 		st = append(st, job.Step{Kind: job.List, Dir: "b", Fmt: "txt", Exposure: true}, job.Step{Kind: job.List, Dir: "bf", Fmt: "txt", Exposure: true}) // 10, 11
 	}
+	// an input that is not there, under a plain name and behind a dangling link: whatever position it takes, the
+	// answer is an error and nothing else (clause f). Appended last so that the indices above stay put.
+	st = append(st,
+		job.Step{Kind: job.List, Dir: "gone", Fmt: "txt"},
+		job.Step{Kind: job.List, Dir: "dang", Fmt: "txt", Stop: true},
+		job.Step{Kind: job.Diff, Dir1: "gone", Dir2: "b", Fmt: "txt"},
+		job.Step{Kind: job.Diff, Dir1: "b", Dir2: "dang", Fmt: "txt"},
+		job.Step{Kind: job.Diff, Dir1: "dang", Dir2: "b", Fmt: "md"},
+		job.Step{Kind: job.Diff, Dir1: "bf", Dir2: "gone", Fmt: "txt", Stop: true})
 	return st
 }
 
+func c13Absent(d string) bool { return d == "gone" || d == "dang" }
+
 func (c *c13Case) fs(items []faultItem) []FSEntry {
-	return append(c.lay.fs("b", c.docs), faultedFS("bf", c.docs, c.lay, items)...)
+	fs := append(c.lay.fs("b", c.docs), faultedFS("bf", c.docs, c.lay, items)...)
+	return append(fs, FSEntry{Path: "dang", Link: "/nonexistent/verif-no-such-input"})
 }
 
 func sameStrings(a, b []string) bool {
@@ -459,6 +471,16 @@ func c13Judge(c *c13Case, items []faultItem, steps []job.Step, ev []job.Event) (
 			}
 		}
 		return false
+	}
+	// (f) an input path that does not exist yields an error and no result
+	for i := range steps {
+		st := &steps[i]
+		if !(c13Absent(st.Dir) || c13Absent(st.Dir1) || c13Absent(st.Dir2)) || bad(i) {
+			continue
+		}
+		if e := &ev[i]; e.OK || e.HasOut || e.NConns > 0 || len(e.Conns) > 0 || len(e.DiffRows) > 0 || e.Err == "" {
+			return "f", fmt.Sprintf("%s: a result (ok=%t, %d connections, %d diff rows) for an input that does not exist", stepDesc(st), e.OK, e.NConns, len(e.DiffRows))
+		}
 	}
 	if bad(0) {
 		return "", ""
